@@ -1162,6 +1162,7 @@ namespace bloch::compiler {
             }
             m_classes[info.name] = std::move(info);
         }
+        m_currentTypeParams.clear();
 
         for (auto& [name, info] : m_classes) {
             if (!info.base.empty() && !m_classes.count(info.base)) {
@@ -1239,8 +1240,12 @@ namespace bloch::compiler {
                 return;
             if (!it->second.base.empty())
                 validateClass(it->second.base);
+            // each class is validated with its own type parameters in scope (not with those of
+            // whichever class happened to be registered last)
+            m_currentTypeParams = it->second.typeParams;
             validateOverrides(it->second);
             validateAbstractness(it->second);
+            m_currentTypeParams.clear();
             validated.insert(name);
         };
         for (auto& [name, _] : m_classes) {
